@@ -1,1 +1,1112 @@
-From Jawk Require Import Base.
+(* ExprParseProofs.v — property C13, reader side: the expression reader maps every admissible
+   spelling of an expression (Spec/ShowExpr.v) to the syntax tree the spelling denotes; hence
+   aliases, separators and the dot sugar are invisible after reading.  Table facts about the
+   generated name table.  No axioms. *)
+From Coq Require Import List NArith ZArith Bool Lia.
+From Jawk Require Import Base F64 Json Reader JsonParser Ctx Printer Fn Expr Chain ExprParser.
+From Jawk Require Gen.FnTable.
+From Jawk Require Import Render ShowExpr ReaderLemmas ParserProofs.
+Import ListNotations.
+Local Open Scope N_scope.
+
+#[local] Arguments N.add : simpl never.
+#[local] Arguments N.mul : simpl never.
+#[local] Arguments N.sub : simpl never.
+#[local] Arguments N.div : simpl never.
+#[local] Arguments N.modulo : simpl never.
+#[local] Arguments N.eqb : simpl never.
+#[local] Arguments N.ltb : simpl never.
+#[local] Arguments N.leb : simpl never.
+
+(* decide closed byte tests *)
+Ltac ground_mem :=
+  repeat match goal with
+  | |- context [mem_N ?a ?l] =>
+      let v := eval vm_compute in (mem_N a l) in
+      match v with
+      | true => change (mem_N a l) with true
+      | false => change (mem_N a l) with false
+      end
+  end.
+
+(* ================= the reader is "synchronised" after every operation ================= *)
+(* the current byte is the first unread byte (Sorter::from_str skips the current byte) *)
+Definition good (r : reader) : Prop := rd_ok r /\ cur r = hd_error (view r).
+
+Lemma next_good r : rd_ok r -> good (snd (next r)).
+Proof.
+  destruct r as [c e rs ln cl pl i]; unfold good, rd_ok, view, next; cbn.
+  intros [Hok Hb]. destruct e; cbn.
+  - destruct (Hok eq_refl) as [-> ->]. cbn. repeat split; auto.
+  - destruct rs as [|[b|] rs]; cbn in *.
+    + repeat split; auto.
+    + injection Hb as Hb. repeat split; auto; discriminate.
+    + repeat split; auto.
+Qed.
+
+Lemma peek_good r : rd_ok r -> good (snd (peek r)).
+Proof.
+  intros Hok. destruct (peek_spec r Hok) as (r' & -> & Hv & Hok' & Hc). cbn [snd].
+  split; [assumption|]. rewrite Hv. assumption.
+Qed.
+
+Lemma eat_ws_good fuel : forall r, good r -> good (eat_ws fuel r).
+Proof.
+  induction fuel as [|f IH]; intros r G; [exact G|]. cbn [eat_ws].
+  pose proof (peek_good r (proj1 G)) as Gp.
+  destruct (peek r) as [[b|] r1]; cbn [snd] in Gp; [|exact Gp].
+  destruct (is_ws b); [|exact Gp]. apply IH. apply next_good. exact (proj1 Gp).
+Qed.
+
+Lemma eat_whitespace_good r : good r -> good (eat_whitespace r).
+Proof. apply eat_ws_good. Qed.
+
+Lemma read_digits_f_good fuel : forall acc r, good r -> good (snd (read_digits_f fuel acc r)).
+Proof.
+  induction fuel as [|f IH]; intros acc r G; [exact G|]. cbn [read_digits_f].
+  pose proof (peek_good r (proj1 G)) as Gp.
+  destruct (peek r) as [[b|] r1]; cbn [snd] in Gp |- *; [|exact Gp].
+  destruct (is_digit b); [|exact Gp]. apply IH. apply next_good. exact (proj1 Gp).
+Qed.
+
+Lemma read_digits_good acc r : good r -> good (snd (read_digits acc r)).
+Proof. apply read_digits_f_good. Qed.
+
+Lemma read_word_good w : forall r, rd_ok r -> good (snd (read_word w r)).
+Proof.
+  induction w as [|a w IH]; intros r H; cbn [read_word].
+  - apply next_good; assumption.
+  - pose proof (next_good r H) as G. destruct (next r) as [[c|] r1]; cbn [snd] in *; [|exact G].
+    destruct (c =? a); [apply IH; exact (proj1 G)|exact G].
+Qed.
+
+Lemma read_hex4_good n : forall acc r, good r -> good (snd (read_hex4 n acc r)).
+Proof.
+  induction n as [|n IH]; intros acc r G; [exact G|]. cbn [read_hex4].
+  pose proof (next_good r (proj1 G)) as G1. destruct (next r) as [[c|] r1]; cbn [snd] in *; [|exact G1].
+  destruct (hex_val c); [apply IH; exact G1|exact G1].
+Qed.
+
+Lemma read_string_f_good fuel : forall acc r, good r -> good (snd (read_string_f fuel acc r)).
+Proof.
+  induction fuel as [|f IH]; intros acc r G; [exact G|]. cbn [read_string_f].
+  pose proof (next_good r (proj1 G)) as G1. destruct (next r) as [[c|] r1]; cbn [snd] in *; [|exact G1].
+  destruct (c =? 34).
+  - pose proof (next_good r1 (proj1 G1)) as G2. destruct (utf8_decode acc); exact G2.
+  - destruct (c =? 92); [|apply IH; exact G1].
+    pose proof (next_good r1 (proj1 G1)) as G2.
+    destruct (next r1) as [[e|] r2]; cbn [snd] in *; [|exact G2].
+    destruct (e =? 117).
+    + pose proof (read_hex4_good 4 0 r2 G2) as G3.
+      destruct (read_hex4 4 0 r2) as [[u|] r3]; cbn [snd] in *; [|exact G3].
+      destruct (is_scalar u); [apply IH; exact G3|exact G3].
+    + destruct (assoc_N e escape_table); [apply IH; exact G2|exact G2].
+Qed.
+
+Lemma rn_exp_good neg dbl chars r : good r -> good (snd (rn_exp neg dbl chars r)).
+Proof.
+  intros G. unfold rn_exp. pose proof (peek_good r (proj1 G)) as G1.
+  destruct (peek r) as [[b|] r1]; cbn [snd] in *; [|exact G1].
+  destruct (is_exp_marker b); [|exact G1].
+  pose proof (next_good r1 (proj1 G1)) as G2.
+  pose proof (peek_good _ (proj1 G2)) as G3.
+  destruct (peek (snd (next r1))) as [c2 r3]; cbn [snd] in *.
+  pose proof (next_good r3 (proj1 G3)) as G4.
+  destruct (is_b c2 45); [|destruct (is_b c2 43)];
+    match goal with |- context [read_digits ?a ?x] =>
+      let H := fresh in
+      assert (H : good (snd (read_digits a x))) by (apply read_digits_good; assumption);
+      destruct (read_digits a x); exact H end.
+Qed.
+
+Lemma rn_frac_good neg chars r : good r -> good (snd (rn_frac neg chars r)).
+Proof.
+  intros G. unfold rn_frac. pose proof (peek_good r (proj1 G)) as G1.
+  destruct (peek r) as [c r1]; cbn [snd] in *.
+  destruct (is_b c 46); [|apply rn_exp_good; exact G1].
+  pose proof (next_good r1 (proj1 G1)) as G2.
+  pose proof (read_digits_good (chars ++ [46]) _ G2) as G3.
+  destruct (read_digits (chars ++ [46]) (snd (next r1))) as [ch r2]; cbn [snd] in *.
+  apply rn_exp_good; exact G3.
+Qed.
+
+Lemma read_number_good r : good r -> good (snd (read_number r)).
+Proof.
+  intros G. rewrite read_number_unf. pose proof (peek_good r (proj1 G)) as G1.
+  destruct (peek r) as [c r1]; cbn [snd] in *. cbv zeta.
+  assert (T : forall neg chars r, good r -> good (snd (rn_tail neg chars r))).
+  { intros neg chars r0 G0. unfold rn_tail. pose proof (read_digits_good chars r0 G0) as G3.
+    destruct (read_digits chars r0) as [ch r2]; cbn [snd] in *. apply rn_frac_good; exact G3. }
+  destruct (is_b c 45).
+  - pose proof (next_good r1 (proj1 G1)) as G2. destruct (next r1) as [[a|] r2]; cbn [snd] in *.
+    + apply T; exact G2.
+    + exact G2.
+  - apply T; exact G1.
+Qed.
+
+Lemma parse_value_good : forall fuel,
+  (forall r, good r -> good (snd (parse_value fuel r))) /\
+  (forall acc r, good r -> good (snd (parse_items fuel acc r))) /\
+  (forall acc r, good r -> good (snd (parse_members fuel acc r))).
+Proof.
+  induction fuel as [|f (IHv & IHi & IHm)]; [split; [|split]; intros; assumption|].
+  assert (Hv : forall r, good r -> good (snd (parse_value (S f) r))).
+  { intros r G. rewrite parse_value_S. cbv zeta.
+    pose proof (eat_whitespace_good r G) as G0.
+    pose proof (peek_good _ (proj1 G0)) as G1.
+    destruct (peek (eat_whitespace r)) as [[b|] r1]; cbn [snd] in *; [|exact G1].
+    assert (W : forall w, good (snd (read_word w r1))) by (intros; apply read_word_good; exact (proj1 G1)).
+    destruct (b =? 116).
+    { specialize (W [114; 117; 101]). destruct (read_word [114; 117; 101] r1); exact W. }
+    destruct (b =? 102).
+    { specialize (W [97; 108; 115; 101]). destruct (read_word [97; 108; 115; 101] r1); exact W. }
+    destruct (b =? 110).
+    { specialize (W [117; 108; 108]). destruct (read_word [117; 108; 108] r1); exact W. }
+    destruct (b =? 34); [apply read_string_f_good; exact G1|].
+    destruct ((b =? 45) || is_digit b); [apply read_number_good; exact G1|].
+    pose proof (next_good r1 (proj1 G1)) as G2.
+    pose proof (eat_whitespace_good _ G2) as G3.
+    pose proof (peek_good _ (proj1 G3)) as G4.
+    destruct (peek (eat_whitespace (snd (next r1)))) as [c r4]; cbn [snd] in *.
+    pose proof (next_good r4 (proj1 G4)) as G5.
+    destruct (b =? 91); [destruct (is_b c 93); [exact G5|apply IHi; exact G4]|].
+    destruct (b =? 123); [destruct (is_b c 125); [exact G5|apply IHm; exact G4]|].
+    exact G2. }
+  split; [exact Hv|split].
+  - intros acc r G. rewrite parse_items_S. specialize (IHv r G).
+    destruct (parse_value f r) as [[v| | |] r1]; cbn [snd] in *; try exact IHv.
+    pose proof (eat_whitespace_good r1 IHv) as G0.
+    pose proof (peek_good _ (proj1 G0)) as G1.
+    destruct (peek (eat_whitespace r1)) as [[c|] r2]; cbn [snd] in *; [|exact G1].
+    pose proof (next_good r2 (proj1 G1)) as G2.
+    destruct (c =? 93); [exact G2|]. destruct (c =? 44); [apply IHi; exact G2|exact G1].
+  - intros acc r G. rewrite parse_members_S. pose proof (IHv r G) as Gk.
+    destruct (parse_value f r) as [[v| | |] r1]; cbn [snd] in *; try exact Gk.
+    destruct v; try exact Gk.
+    pose proof (eat_whitespace_good r1 Gk) as G0.
+    pose proof (peek_good _ (proj1 G0)) as G1.
+    destruct (peek (eat_whitespace r1)) as [c r2]; cbn [snd] in *.
+    destruct (negb (is_b c 58)); [exact G1|].
+    pose proof (next_good r2 (proj1 G1)) as G2.
+    pose proof (IHv _ G2) as G3.
+    destruct (parse_value f (snd (next r2))) as [[v| | |] r3]; cbn [snd] in *; try exact G3.
+    pose proof (eat_whitespace_good r3 G3) as G4.
+    pose proof (peek_good _ (proj1 G4)) as G5.
+    destruct (peek (eat_whitespace r3)) as [[c5|] r5]; cbn [snd] in *; [|exact G5].
+    pose proof (next_good r5 (proj1 G5)) as G6.
+    destruct (c5 =? 125); [exact G6|]. destruct (c5 =? 44); [apply IHm; exact G6|exact G5].
+Qed.
+
+Lemma next_json_value_good r : good r -> good (snd (next_json_value r)).
+Proof. apply parse_value_good. Qed.
+
+(* ================= small facts ================= *)
+Lemma at_end_imp (p q : byte -> bool) tl :
+  (forall b, p b = true -> q b = true) -> at_end p tl -> at_end q tl.
+Proof. destruct tl; cbn; auto. Qed.
+
+Lemma at_end_ndigit tl : at_end not_digit tl -> ndigit tl.
+Proof.
+  destruct tl as [|b tl]; cbn; [auto|]. unfold not_digit. intros H.
+  apply negb_true_iff in H. exact H.
+Qed.
+
+Lemma fuel_of_view r : rd_ok r -> (length (view r) < fuel_of r)%nat.
+Proof. intros H. pose proof (view_len r H). unfold fuel_of. lia. Qed.
+
+Lemma good_of r (l : list byte) : rd_ok r -> cur r = hd_error l -> view r = l -> good r.
+Proof. intros H1 H2 H3. split; [assumption|]. rewrite H3. assumption. Qed.
+
+Lemma eat_whitespace_cur r b : cur r = Some b -> is_ws b = false -> eat_whitespace r = r.
+Proof.
+  intros Hc Hw. unfold eat_whitespace. cbn [eat_ws]. unfold peek. rewrite Hc, Hw. reflexivity.
+Qed.
+
+Lemma utf8_encode_nonempty (n : str) : n <> [] -> utf8_encode n <> [].
+Proof.
+  destruct n as [|c n]; [congruence|]. intros _. unfold utf8_encode. cbn [flat_map].
+  unfold utf8_encode_char.
+  destruct (c <? 128); [discriminate|]. destruct (c <? 2048); [discriminate|].
+  destruct (c <? 65536); discriminate.
+Qed.
+
+Lemma utf8_decode_encode' (n : str) : scalars n -> utf8_decode (utf8_encode n) = Some n.
+Proof. apply utf8_decode_encode. Qed.
+
+Lemma utf8_decode_ascii (l : list byte) : Forall (fun b => b < 128) l -> utf8_decode l = Some l.
+Proof.
+  induction 1 as [|b l Hb _ IH]; [reflexivity|]. rewrite utf8_decode_cons.
+  rewrite (ltb_true b 128) by assumption. rewrite IH. reflexivity.
+Qed.
+
+(* ================= token readers ================= *)
+(* read_until reads exactly the maximal run of non-stop bytes after the current byte and leaves the
+   stop byte current (or ends at the end of the input) *)
+Lemma read_until_spec stop (tok : list byte) : forall fuel acc r (p : byte) (tl : list byte),
+  rd_ok r -> cur r = Some p -> view r = p :: tok ++ tl ->
+  Forall (fun b => stop b = false) tok -> at_end stop tl -> (length tok < fuel)%nat ->
+  exists r', read_until fuel stop acc r = (acc ++ tok, r') /\ view r' = tl /\ rd_ok r' /\
+             cur r' = hd_error tl.
+Proof.
+  induction tok as [|b tok IH]; intros fuel acc r p tl Hok Hc Hv Htok Hend Hf;
+    (destruct fuel as [|f]; [cbn in Hf; lia|]); cbn [read_until].
+  - cbn [app] in Hv. destruct (next_drop r p tl Hok Hc Hv) as (r1 & Hn & Hv1 & Hok1 & Hc1).
+    rewrite Hn, app_nil_r. destruct tl as [|c tl]; cbn [hd_error] in *.
+    + eauto.
+    + cbn [at_end] in Hend. rewrite Hend. eauto.
+  - inversion Htok as [|? ? Hb Htok']; subst. cbn [app] in Hv.
+    destruct (next_drop r p _ Hok Hc Hv) as (r1 & Hn & Hv1 & Hok1 & Hc1).
+    rewrite Hn. cbn [hd_error] in Hc1 |- *. rewrite Hb.
+    destruct (IH f (acc ++ [b]) r1 b tl Hok1 Hc1 Hv1 Htok' Hend) as (r2 & E & ? & ? & ?);
+      [cbn in Hf; lia|].
+    rewrite E, <- app_assoc. cbn [app]. eauto.
+Qed.
+
+(* at the end of the input nothing is read *)
+Lemma read_until_eof stop fuel acc r : rd_ok r -> view r = [] -> cur r = None ->
+  fst (read_until (S fuel) stop acc r) = acc.
+Proof.
+  intros Hok Hv Hc. cbn [read_until]. destruct (peek_nil r Hok Hv) as (r' & Hp & _).
+  unfold peek in Hp. rewrite Hc in Hp. rewrite Hp. reflexivity.
+Qed.
+
+(* ================= extractors ================= *)
+Lemma carets_length n : length (carets n) = n.
+Proof. apply repeat_length. Qed.
+
+Lemma count_parents_spec ups : forall fuel n r (rst : list byte),
+  rd_ok r -> view r = carets ups ++ rst -> at_end (fun b => negb (b =? 94)) rst -> (ups < fuel)%nat ->
+  exists r', count_parents fuel n r = ((n + ups)%nat, r') /\ view r' = rst /\ rd_ok r' /\
+             cur r' = hd_error rst.
+Proof.
+  induction ups as [|ups IH]; intros fuel n r rst Hok Hv Hend Hf;
+    (destruct fuel as [|f]; [lia|]); cbn [count_parents].
+  - cbn [carets repeat app] in Hv. destruct (peek_spec r Hok) as (r1 & Hp & Hv1 & Hok1 & Hc1).
+    rewrite Hp. rewrite Hv in *. rewrite Nat.add_0_r.
+    destruct rst as [|c rst]; cbn [hd_error is_b] in *.
+    + eauto.
+    + apply negb_true_iff in Hend. rewrite Hend. eauto.
+  - cbn [carets repeat app] in Hv. fold (carets ups) in Hv.
+    destruct (peek_cons r 94 _ Hok Hv) as (r1 & Hp & Hv1 & Hc1 & Hok1). rewrite Hp.
+    cbn [is_b]. rewrite N.eqb_refl.
+    destruct (next_drop r1 94 _ Hok1 Hc1 Hv1) as (r2 & Hn & Hv2 & Hok2 & _). rewrite Hn. cbn [snd].
+    destruct (IH f (S n) r2 rst Hok2 Hv2 Hend) as (r3 & E & ? & ? & ?); [lia|].
+    rewrite E. replace (S n + ups)%nat with (n + S ups)%nat by lia. eauto.
+Qed.
+
+Lemma parse_path_S f ext r : parse_path (S f) ext r =
+    let '(c, r) := peek r in
+    if is_b c 46 then
+      let '(kb, r) := read_until (fuel_of r) key_stop [] r in
+      match utf8_decode kb with
+      | None => (None, r)
+      | Some [] => (match ext with [] => Some None | _ => None end, r)
+      | Some k => parse_path f (ext ++ [SKey k]) r
+      end
+    else if is_b c 35 then
+      let '(ds, r) := read_digits [] (snd (next r)) in
+      match ds with
+      | [] => (match ext with [] => Some None | _ => None end, r)
+      | _ => let n := N_of_digits ds in
+             if n <=? usize_max then parse_path f (ext ++ [SIdx n]) r else (None, r)
+      end
+    else (Some (Some ext), r).
+Proof. reflexivity. Qed.
+
+(* every selector of a path is followed by the right thing *)
+Fixpoint sels_follow (l : list ssel) (tl : list byte) : Prop :=
+  match l with
+  | [] => at_end not_path_start tl
+  | s :: more => sel_follow s (show_sels more ++ tl) /\ sels_follow more tl
+  end.
+
+Lemma not_path_start_is_b (tl : list byte) : at_end not_path_start tl ->
+  is_b (hd_error tl) 46 = false /\ is_b (hd_error tl) 35 = false.
+Proof.
+  destruct tl as [|b tl]; cbn [at_end hd_error is_b]; [auto|].
+  unfold not_path_start, mem_N. cbn [existsb]. intros H. apply negb_true_iff in H.
+  apply orb_false_iff in H. destruct H as [H1 H2]. apply orb_false_iff in H2. tauto.
+Qed.
+
+Lemma show_sels_cons s more : show_sels (s :: more) = show_sel s ++ show_sels more.
+Proof. reflexivity. Qed.
+
+Lemma parse_path_sels l : forall fuel ext r (tl : list byte),
+  rd_ok r -> Forall sel_ok l -> sels_follow l tl -> view r = show_sels l ++ tl ->
+  (length l < fuel)%nat ->
+  exists r', parse_path fuel ext r = (Some (Some (ext ++ map sel_of l)), r') /\ view r' = tl /\
+             rd_ok r' /\ cur r' = hd_error tl.
+Proof.
+  induction l as [|s more IH]; intros fuel ext r tl Hok Hwf Hfol Hv Hf;
+    (destruct fuel as [|f]; [cbn in Hf; lia|]); rewrite parse_path_S.
+  - cbn [show_sels flat_map app] in Hv. cbn [sels_follow] in Hfol.
+    destruct (peek_spec r Hok) as (r1 & Hp & Hv1 & Hok1 & Hc1). rewrite Hp. rewrite Hv in *.
+    destruct (not_path_start_is_b tl Hfol) as [-> ->]. cbn [map]. rewrite app_nil_r. eauto.
+  - inversion Hwf as [|? ? Hs Hwf']; subst. cbn [sels_follow] in Hfol. destruct Hfol as [Hfs Hfol].
+    rewrite show_sels_cons, <- app_assoc in Hv.
+    destruct s as [k|ds]; cbn [show_sel app] in Hv; cbn [sel_follow] in Hfs; cbn [sel_ok] in Hs.
+    + (* key *)
+      destruct Hs as (Hne & Hsc & Hstop).
+      destruct (peek_cons r 46 _ Hok Hv) as (r1 & Hp & Hv1 & Hc1 & Hok1). rewrite Hp.
+      cbn [is_b]. rewrite N.eqb_refl.
+      destruct (read_until_spec key_stop (utf8_encode k) (fuel_of r1) [] r1 46 _ Hok1 Hc1 Hv1 Hstop Hfs)
+        as (r2 & E & Hv2 & Hok2 & Hc2).
+      { pose proof (fuel_of_view r1 Hok1) as L. rewrite Hv1 in L. cbn [length] in L.
+        rewrite app_length in L. lia. }
+      rewrite E. cbn [app]. rewrite utf8_decode_encode' by assumption.
+      destruct k as [|c k]; [congruence|].
+      destruct (IH f (ext ++ [SKey (c :: k)]) r2 tl Hok2 Hwf' Hfol Hv2) as (r3 & E3 & ? & ? & ?);
+        [cbn in Hf; lia|].
+      rewrite E3, <- app_assoc. cbn [app map sel_of]. eauto.
+    + (* index *)
+      destruct Hs as ((Hne & Hds) & Hmax).
+      destruct (peek_cons r 35 _ Hok Hv) as (r1 & Hp & Hv1 & Hc1 & Hok1). rewrite Hp.
+      cbn [is_b]. ground_eqb. cbv iota.
+      destruct (next_drop r1 35 _ Hok1 Hc1 Hv1) as (r2 & Hn & Hv2 & Hok2 & _). rewrite Hn. cbn [snd].
+      destruct (read_digits_spec ds [] r2 _ Hok2 Hds (at_end_ndigit _ Hfs) Hv2) as (r3 & E & Hv3 & Hok3).
+      rewrite E. cbn [app]. destruct ds as [|d ds]; [congruence|]. cbv zeta.
+      rewrite (leb_true _ _ Hmax).
+      destruct (IH f (ext ++ [SIdx (N_of_digits (d :: ds))]) r3 tl Hok3 Hwf' Hfol Hv3)
+        as (r4 & E4 & ? & ? & ?); [cbn in Hf; lia|].
+      rewrite E4, <- app_assoc. cbn [app map sel_of]. eauto.
+Qed.
+
+Lemma show_sel_head s : exists b l, show_sel s = b :: l /\ (b = 46 \/ b = 35).
+Proof. destruct s; cbn [show_sel]; eauto. Qed.
+
+Lemma sel_follow_path_start s (b : byte) l : (b = 46 \/ b = 35) -> sel_follow s (b :: l).
+Proof. destruct s; cbn [sel_follow at_end]; intros [-> | ->]; reflexivity. Qed.
+
+Lemma sels_follow_of_last l tl :
+  match last_sel l with None => True | Some s => sel_follow s tl end ->
+  at_end not_path_start tl -> sels_follow l tl.
+Proof.
+  induction l as [|s more IH]; intros H1 H2; [exact H2|].
+  destruct more as [|s' more'].
+  - cbn [sels_follow show_sels flat_map app]. split; [exact H1|exact H2].
+  - cbn [sels_follow]. split.
+    + rewrite show_sels_cons. destruct (show_sel_head s') as (b & l & -> & Hb).
+      cbn [app]. apply sel_follow_path_start. exact Hb.
+    + apply IH; [exact H1|exact H2].
+Qed.
+
+Lemma sels_len l : (length l <= length (show_sels l))%nat.
+Proof.
+  induction l as [|s more IH]; [cbn; lia|]. rewrite show_sels_cons, app_length.
+  destruct (show_sel_head s) as (b & l & -> & _). cbn [length]. lia.
+Qed.
+
+Lemma not_extractor_start_imp b : not_extractor_start b = true ->
+  negb (b =? 94) = true /\ not_path_start b = true.
+Proof.
+  unfold not_extractor_start, not_path_start, mem_N. cbn [existsb]. rewrite negb_orb.
+  intros H. apply andb_true_iff in H. exact H.
+Qed.
+
+Lemma parse_extractor_spec ups p r (tl : list byte) :
+  xwf (XExtract ups p) -> xfollow (XExtract ups p) tl -> rd_ok r ->
+  view r = show (XExtract ups p) ++ tl ->
+  exists r', parse_extractor r = (Some (EExtract ups (path_of p)), r') /\ view r' = tl /\
+             rd_ok r' /\ cur r' = hd_error tl.
+Proof.
+  intros Hwf Hfol Hok Hv. cbn [show] in Hv. rewrite <- app_assoc in Hv. unfold parse_extractor.
+  destruct (count_parents_spec ups (fuel_of r) O r (show_path p ++ tl) Hok Hv)
+    as (r1 & E & Hv1 & Hok1 & Hc1).
+  { destruct p as [[|]|[|s more]]; cbn [show_path app show_sels flat_map]; try reflexivity.
+    - cbn [xfollow last_sel map last] in Hfol. revert Hfol. apply at_end_imp.
+      intros b Hb. apply not_extractor_start_imp in Hb. tauto.
+    - destruct (show_sel_head s) as (b & l & -> & [-> | ->]); reflexivity. }
+  { pose proof (fuel_of_view r Hok) as L. rewrite Hv, app_length, carets_length in L. lia. }
+  rewrite E. cbn [Nat.add]. clear E Hv Hc1.
+  destruct p as [[|]|l]; cbn [show_path app] in Hv1; cbn [xfollow] in Hfol; cbn [path_of].
+  - (* "#" *)
+    change (fuel_of r1) with (S (S (length (rest r1)))). rewrite parse_path_S.
+    destruct (peek_cons r1 35 _ Hok1 Hv1) as (r2 & Hp & Hv2 & Hc2 & Hok2). rewrite Hp.
+    cbn [is_b]. ground_eqb. cbv iota.
+    destruct (next_drop r2 35 _ Hok2 Hc2 Hv2) as (r3 & Hn & Hv3 & Hok3 & Hc3). rewrite Hn. cbn [snd].
+    destruct (read_digits_spec [] [] r3 tl Hok3 (Forall_nil _) (at_end_ndigit _ Hfol) Hv3)
+      as (r4 & E & Hv4 & Hok4).
+    pose proof (read_digits_good [] r3 (good_of r3 tl Hok3 Hc3 Hv3)) as G. rewrite E in G |- *.
+    cbn [snd app] in G |- *. destruct G as [_ G]. rewrite Hv4 in G.
+    cbn [option_map]. eauto.
+  - (* "." *)
+    change (fuel_of r1) with (S (S (length (rest r1)))). rewrite parse_path_S.
+    destruct (peek_cons r1 46 _ Hok1 Hv1) as (r2 & Hp & Hv2 & Hc2 & Hok2). rewrite Hp.
+    cbn [is_b]. rewrite N.eqb_refl.
+    destruct (read_until_spec key_stop [] (fuel_of r2) [] r2 46 tl Hok2 Hc2 Hv2 (Forall_nil _) Hfol)
+      as (r3 & E & ? & ? & ?); [cbn; unfold fuel_of; lia|].
+    rewrite E. cbn [app utf8_decode option_map]. eauto.
+  - (* a path *)
+    destruct Hwf as [Hne Hsels].
+    destruct (parse_path_sels l (fuel_of r1) [] r1 tl Hok1 Hsels) as (r2 & E & ? & ? & ?).
+    + destruct (last_sel l) as [s|] eqn:EL.
+      * apply sels_follow_of_last; [rewrite EL|]; tauto.
+      * apply sels_follow_of_last; [rewrite EL; exact I|]. revert Hfol. apply at_end_imp.
+        intros b Hb. apply not_extractor_start_imp in Hb. tauto.
+    + exact Hv1.
+    + pose proof (fuel_of_view r1 Hok1) as L. rewrite Hv1, app_length in L.
+      pose proof (sels_len l). lia.
+    + rewrite E. cbn [app option_map]. eauto.
+Qed.
+
+(* ================= variables and macros ================= *)
+Lemma parse_get_variable_spec (m : bool) (n : str) r (tl : list byte) :
+  name_ok var_stop n -> at_end var_stop tl -> rd_ok r ->
+  view r = (if m then 64 else 58) :: utf8_encode n ++ tl ->
+  exists r', parse_get_variable r = (Some (if m then EMacro n else EVar n), r') /\ view r' = tl /\
+             rd_ok r' /\ cur r' = hd_error tl.
+Proof.
+  intros (Hne & Hsc & Hstop) Hend Hok Hv. unfold parse_get_variable.
+  set (p := if m then 64 else 58) in *.
+  destruct (peek_cons r p _ Hok Hv) as (r1 & Hp & Hv1 & Hc1 & Hok1). rewrite Hp.
+  destruct (read_until_spec var_stop (utf8_encode n) (fuel_of r1) [] r1 p tl Hok1 Hc1 Hv1 Hstop Hend)
+    as (r2 & E & ? & ? & ?).
+  { pose proof (fuel_of_view r1 Hok1) as L. rewrite Hv1 in L. cbn [length] in L.
+    rewrite app_length in L. lia. }
+  rewrite E. cbn [app]. pose proof (utf8_encode_nonempty n Hne) as Hnb.
+  pose proof (utf8_decode_encode' n Hsc) as Hdec.
+  destruct (utf8_encode n) as [|b0 nb]; [congruence|]. rewrite Hdec.
+  assert (Em : is_b (Some p) 64 = m) by (subst p; destruct m; reflexivity).
+  nb. rewrite Em. eauto.
+Qed.
+
+(* ================= previously selected names ================= *)
+Lemma read_sel_name_spec (raw : list byte) : forall fuel acc r (p : byte) (tl : list byte),
+  rd_ok r -> cur r = Some p -> view r = p :: raw ++ 47 :: tl ->
+  Forall (fun b => (b =? 47) = false) raw -> (length raw < fuel)%nat ->
+  exists r', read_sel_name fuel acc r = (Some (acc ++ raw), r') /\ view r' = 47 :: tl /\ rd_ok r' /\
+             cur r' = Some 47.
+Proof.
+  induction raw as [|b raw IH]; intros fuel acc r p tl Hok Hc Hv Hraw Hf;
+    (destruct fuel as [|f]; [cbn in Hf; lia|]); cbn [read_sel_name].
+  - cbn [app] in Hv. destruct (next_drop r p _ Hok Hc Hv) as (r1 & Hn & Hv1 & Hok1 & Hc1).
+    rewrite Hn, app_nil_r. cbn [hd_error] in *. rewrite N.eqb_refl. eauto.
+  - inversion Hraw as [|? ? Hb Hraw']; subst. cbn [app] in Hv.
+    destruct (next_drop r p _ Hok Hc Hv) as (r1 & Hn & Hv1 & Hok1 & Hc1).
+    rewrite Hn. cbn [hd_error] in Hc1 |- *. rewrite Hb.
+    destruct (IH f (acc ++ [b]) r1 b tl Hok1 Hc1 Hv1 Hraw') as (r2 & E & ? & ? & ?);
+      [cbn in Hf; lia|].
+    rewrite E, <- app_assoc. cbn [app]. eauto.
+Qed.
+
+Lemma trim_left_ws pl m : uni_ws pl -> trim_left (pl ++ m) = trim_left m.
+Proof.
+  induction 1 as [|c pl Hc _ IH]; cbn [app trim_left]; [reflexivity|]. rewrite Hc. exact IH.
+Qed.
+Lemma trim_left_id m : no_ws_head m -> trim_left m = m.
+Proof. destruct m as [|c m]; cbn [no_ws_head trim_left]; [reflexivity|]. intros ->. reflexivity. Qed.
+Lemma trim_left_all pl : uni_ws pl -> trim_left pl = [].
+Proof. intros H. rewrite <- (app_nil_r pl). rewrite trim_left_ws by assumption. reflexivity. Qed.
+
+(* str::trim removes exactly the white space written around a trimmed name *)
+Lemma trim_pad pl n pr : uni_ws pl -> uni_ws pr -> trimmed n -> trim (pl ++ n ++ pr) = n.
+Proof.
+  intros Hl Hr [H1 H2]. unfold trim. rewrite trim_left_ws by assumption.
+  destruct n as [|c n].
+  - cbn [app]. rewrite (trim_left_all pr Hr). reflexivity.
+  - rewrite (trim_left_id ((c :: n) ++ pr)) by exact H1.
+    rewrite rev_app_distr. rewrite trim_left_ws by (apply Forall_rev; exact Hr).
+    rewrite trim_left_id by exact H2. apply rev_involutive.
+Qed.
+
+Lemma parse_get_selection_spec pl n pr r (tl : list byte) :
+  xwf (XSelected pl n pr) -> rd_ok r -> cur r = Some 47 ->
+  view r = show (XSelected pl n pr) ++ tl ->
+  exists r', parse_get_selection r = (Some (ESelected n), r') /\ view r' = tl /\ rd_ok r' /\
+             cur r' = hd_error tl.
+Proof.
+  intros (Hl & Hr & Htr & Hne & Hsc & Hraw) Hok Hc Hv. cbn [show] in Hv.
+  cbn [app] in Hv. rewrite <- app_assoc in Hv. cbn [app] in Hv. unfold parse_get_selection.
+  destruct (read_sel_name_spec _ (fuel_of r) [] r 47 tl Hok Hc Hv Hraw) as (r1 & E & Hv1 & Hok1 & Hc1).
+  { pose proof (fuel_of_view r Hok) as L. rewrite Hv in L. cbn [length] in L.
+    rewrite app_length in L. lia. }
+  rewrite E. cbn [app].
+  destruct (next_drop r1 47 tl Hok1 Hc1 Hv1) as (r2 & Hn & ? & ? & ?). rewrite Hn. cbn [snd].
+  pose proof (utf8_encode_nonempty _ Hne) as Hnb.
+  pose proof (utf8_decode_encode' _ Hsc) as Hdec.
+  destruct (utf8_encode (pl ++ n ++ pr)) as [|b0 nb]; [congruence|]. rewrite Hdec.
+  rewrite trim_pad by assumption. eauto.
+Qed.
+
+(* ================= input-context names ================= *)
+Lemma read_ictx_name_spec (sp : list byte) : forall nm fuel acc r (p : byte) (tl : list byte),
+  rd_ok r -> cur r = Some p -> view r = p :: sp ++ tl -> norm_all sp = Some nm ->
+  at_end not_ictx_letter tl -> (length sp < fuel)%nat ->
+  exists r', read_ictx_name fuel acc r = (acc ++ nm, r') /\ view r' = tl /\ rd_ok r' /\
+             cur r' = hd_error tl.
+Proof.
+  induction sp as [|b sp IH]; intros nm fuel acc r p tl Hok Hc Hv Hnm Hend Hf;
+    (destruct fuel as [|f]; [cbn in Hf; lia|]); cbn [read_ictx_name].
+  - cbn [app] in Hv. cbn [norm_all] in Hnm. injection Hnm as <-.
+    destruct (next_drop r p tl Hok Hc Hv) as (r1 & Hn & Hv1 & Hok1 & Hc1).
+    rewrite Hn, app_nil_r. destruct tl as [|c tl]; cbn [hd_error] in *.
+    + eauto.
+    + cbn [at_end] in Hend. unfold not_ictx_letter in Hend.
+      destruct (ictx_norm c); [discriminate|]. eauto.
+  - cbn [app] in Hv. cbn [norm_all] in Hnm.
+    destruct (ictx_norm b) as [x|] eqn:Ex; [|discriminate].
+    destruct (norm_all sp) as [y|] eqn:Ey; [|discriminate]. injection Hnm as <-.
+    destruct (next_drop r p _ Hok Hc Hv) as (r1 & Hn & Hv1 & Hok1 & Hc1).
+    rewrite Hn. cbn [hd_error] in Hc1 |- *. rewrite Ex.
+    destruct (IH y f (acc ++ [x]) r1 b tl Hok1 Hc1 Hv1 eq_refl Hend) as (r2 & E & ? & ? & ?);
+      [cbn in Hf; lia|].
+    rewrite E, <- app_assoc. cbn [app]. eauto.
+Qed.
+
+Lemma parse_input_context_spec k sp r (tl : list byte) :
+  xwf (XIctx k sp) -> at_end not_ictx_letter tl -> rd_ok r -> cur r = Some 38 ->
+  view r = show (XIctx k sp) ++ tl ->
+  exists r', parse_input_context r = (Some (EIctx k), r') /\ view r' = tl /\ rd_ok r' /\
+             cur r' = hd_error tl.
+Proof.
+  intros Hwf Hend Hok Hc Hv. cbn [show app] in Hv. cbn [xwf] in Hwf.
+  destruct (norm_all sp) as [nm|] eqn:Enm; [|contradiction]. unfold parse_input_context.
+  destruct (read_ictx_name_spec sp nm (fuel_of r) [] r 38 tl Hok Hc Hv Enm Hend) as (r1 & E & ? & ? & ?).
+  { pose proof (fuel_of_view r Hok) as L. rewrite Hv in L. cbn [length] in L.
+    rewrite app_length in L. lia. }
+  rewrite E. cbn [app]. rewrite Hwf. cbn [option_map]. eauto.
+Qed.
+
+(* ================= the generated name table ================= *)
+Notation fn_table := Gen.FnTable.fn_table.
+Definition entry := (list N * list N * N * option N)%type.
+Definition e_name (e : entry) : list N := fst (fst (fst e)).
+Definition e_canon (e : entry) : list N := snd (fst (fst e)).
+Definition e_min (e : entry) : N := snd (fst e).
+Definition e_max (e : entry) : option N := snd e.
+
+Lemma list_eqb_eq (a b : list N) : list_eqb N.eqb a b = true <-> a = b.
+Proof. exact (str_eqb_eq a b). Qed.
+
+Lemma find_function_In nm (tbl : list entry) c mn mx :
+  find_function nm tbl = Some (c, mn, mx) -> In (nm, c, mn, mx) tbl.
+Proof.
+  induction tbl as [|[[[n' c'] mn'] mx'] t IH]; cbn [find_function]; [discriminate|].
+  destruct (list_eqb N.eqb nm n') eqn:E.
+  - intros H. injection H as <- <- <-. apply list_eqb_eq in E. subst. left. reflexivity.
+  - intros H. right. auto.
+Qed.
+
+(* no name of the table contains a byte at which the name reader stops, every name is ASCII,
+   none starts with the dot of the dot sugar *)
+Definition name_clean (nm : list byte) : bool :=
+  forallb (fun b => negb (fname_stop b) && (b <? 128)) nm &&
+  negb (match nm with b :: _ => b =? 46 | [] => false end).
+
+Lemma table_names_clean : forallb (fun e : entry => name_clean (e_name e)) fn_table = true.
+Proof. vm_compute. reflexivity. Qed.
+
+Lemma resolved_name_clean nm c mn mx : find_function nm fn_table = Some (c, mn, mx) ->
+  Forall (fun b => fname_stop b = false) nm /\ Forall (fun b => b < 128) nm /\
+  match nm with b :: _ => (b =? 46) = false | [] => True end.
+Proof.
+  intros H. apply find_function_In in H.
+  pose proof (proj1 (forallb_forall _ _) table_names_clean _ H) as C.
+  unfold e_name in C. cbn [fst] in C. unfold name_clean in C.
+  apply andb_true_iff in C. destruct C as [C1 C2].
+  rewrite forallb_forall in C1. split; [|split].
+  - apply Forall_forall. intros b Hb. specialize (C1 b Hb). apply andb_true_iff in C1.
+    destruct C1 as [C1 _]. apply negb_true_iff in C1. exact C1.
+  - apply Forall_forall. intros b Hb. specialize (C1 b Hb). apply andb_true_iff in C1.
+    destruct C1 as [_ C1]. apply N.ltb_lt. exact C1.
+  - destruct nm as [|b nm]; [exact I|]. apply negb_true_iff in C2. exact C2.
+Qed.
+
+(* ================= first bytes ================= *)
+Definition head_ok (x : sexpr) (b : byte) : Prop :=
+  match x with
+  | XExtract _ _ => mem_N b [46; 35; 94] = true
+  | XCall _ _ _ _ => b = 40
+  | XVar _ => b = 58
+  | XMacro _ => b = 64
+  | XIctx _ _ => b = 38
+  | XSelected _ _ _ => b = 47
+  | XConst _ => mem_N b [46; 35; 94] = false /\ (b =? 40) = false /\ mem_N b [58; 64] = false /\
+                (b =? 38) = false /\ (b =? 47) = false
+  end.
+
+Lemma render_first t : wf t ->
+  exists b l, render t = b :: l /\ (In b [110; 116; 102; 34; 91; 123; 45] \/ is_digit b = true).
+Proof.
+  destruct t as [| | |n|cs|w|items|w|ms]; intros H;
+    try (eexists _, _; split; [reflexivity|left; cbn [In]; tauto]).
+  destruct H as [H _]. destruct (num_head n H) as (b & l & E & [->|Hd]); cbn [render]; rewrite E;
+    eexists _, _; (split; [reflexivity|]); [left; cbn [In]; tauto|right; assumption].
+Qed.
+
+Lemma json_head_facts b : (In b [110; 116; 102; 34; 91; 123; 45] \/ is_digit b = true) ->
+  (mem_N b [46; 35; 94] = false /\ (b =? 40) = false /\ mem_N b [58; 64] = false /\
+   (b =? 38) = false /\ (b =? 47) = false) /\ is_pad_byte b = false /\ (b =? 41) = false.
+Proof.
+  intros [H|H].
+  - cbn [In] in H. repeat (destruct H as [<-|H]; [vm_compute; repeat split; reflexivity|]).
+    contradiction.
+  - apply digit_range in H. unfold mem_N, is_pad_byte, is_ws. cbn [existsb].
+    rewrite !(eqb_false b) by lia. repeat split; reflexivity.
+Qed.
+
+Lemma show_head x : xwf x ->
+  exists b l, show x = b :: l /\ head_ok x b /\ is_pad_byte b = false /\ (b =? 41) = false.
+Proof.
+  destruct x as [ups p|t|n|n|pl n pr|k sp|name dot args close]; intros H; cbn [show head_ok].
+  - destruct ups as [|ups]; [|cbn [carets repeat app]; eexists _, _; repeat split; reflexivity].
+    cbn [carets repeat app]. destruct p as [[|]|[|s more]]; cbn [show_path show_sels flat_map].
+    + eexists _, _; repeat split; reflexivity.
+    + eexists _, _; repeat split; reflexivity.
+    + destruct H as [H _]. exfalso. apply H; reflexivity.
+    + destruct (show_sel_head s) as (b & l & -> & [-> | ->]); cbn [app];
+        eexists _, _; repeat split; reflexivity.
+  - cbn [xwf] in H. destruct (render_first t H) as (b & l & E & Hb).
+    destruct (json_head_facts b Hb) as (? & ? & ?). eexists _, _; repeat split; eauto; tauto.
+  - eexists _, _; repeat split; reflexivity.
+  - eexists _, _; repeat split; reflexivity.
+  - eexists _, _; repeat split; reflexivity.
+  - eexists _, _; repeat split; reflexivity.
+  - eexists _, _; repeat split; reflexivity.
+Qed.
+
+Lemma show_nonempty x : xwf x -> (1 <= length (show x))%nat.
+Proof. intros H. destruct (show_head x H) as (b & l & -> & _). cbn [length]. lia. Qed.
+
+Lemma show_args_head args close : xwf_args args close -> exists b l, show_args args close = b :: l.
+Proof.
+  destruct args as [|[s a] more]; cbn [show_args xwf_args].
+  - intros _. destruct close; cbn [app]; eauto.
+  - intros (_ & Ha & _). destruct s as [|b s]; cbn [app]; [|eauto].
+    destruct (show_head a Ha) as (b & l & -> & _). cbn [app]. eauto.
+Qed.
+
+(* the follow conditions look at the first byte only *)
+Lemma at_end_head p (b : byte) l l' : at_end p (b :: l) -> at_end p (b :: l').
+Proof. exact (fun H => H). Qed.
+
+Lemma xfollow_head x (b : byte) l l' : xfollow x (b :: l) -> xfollow x (b :: l').
+Proof.
+  destruct x as [ups [[|]|sl]|t|n|n|pl n pr|k sp|name dot args close]; cbn [xfollow]; auto.
+Qed.
+
+Lemma json_follow_follow t tl : json_follow t tl -> follow t tl.
+Proof.
+  destruct t; cbn [json_follow follow]; auto. destruct tl as [|b tl]; cbn [at_end num_follow]; auto.
+  unfold not_number_part. intros H. apply andb_true_iff in H. destruct H as [H H3].
+  apply andb_true_iff in H. destruct H as [H1 H2].
+  apply negb_true_iff in H1, H2, H3. apply N.eqb_neq in H2. auto.
+Qed.
+
+(* ================= unfolding equations ================= *)
+Lemma read_getter_S f r : read_getter (S f) r =
+    let r := eat_whitespace r in
+    let '(c, r) := peek r in
+    match c with
+    | None => (None, r)
+    | Some b =>
+      if mem_N b [46; 35; 94] then parse_extractor r
+      else if b =? 40 then
+        let r := eat_whitespace r in
+        let '(nb, r) := read_until (fuel_of r) fname_stop [] r in
+        match utf8_decode nb with
+        | None => (None, r)
+        | Some _ =>
+          let '(dot, nb') := match nb with b0 :: t => if b0 =? 46 then (true, t) else (false, nb) | [] => (false, nb) end in
+          match find_function nb' fn_table with
+          | None => (None, r)
+          | Some (canon, mn, mx) =>
+              match parse_args f (if dot then [EExtract O None] else []) r with
+              | (Some args, r) =>
+                  if arity_ok (length args) mn mx then (Some (ECall (fn_of_canonical canon) args), r) else (None, r)
+              | (None, r) => (None, r)
+              end
+          end
+        end
+      else if mem_N b [58; 64] then parse_get_variable r
+      else if b =? 38 then parse_input_context r
+      else if b =? 47 then parse_get_selection r
+      else match next_json_value r with
+           | (POk v, r) => (Some (EConst v), r)
+           | (_, r) => (None, r)
+           end
+    end.
+Proof. reflexivity. Qed.
+
+Lemma parse_args_S f acc r : parse_args (S f) acc r =
+    let r := eat_whitespace r in
+    let '(c, r) := peek r in
+    match c with
+    | None => (None, r)
+    | Some b =>
+        if b =? 44 then parse_args f acc (snd (next r))
+        else if b =? 41 then (Some acc, snd (next r))
+        else match read_getter f r with
+             | (Some e, r) => parse_args f (acc ++ [e]) r
+             | (None, r) => (None, r)
+             end
+    end.
+Proof. reflexivity. Qed.
+
+Lemma show_call name dot args close :
+  show (XCall name dot args close) = 40 :: (if dot then [46] else []) ++ name ++ show_args args close.
+Proof.
+  cbn [show]. do 3 f_equal. induction args as [|[s a] more IH]; cbn [show_args]; [reflexivity|].
+  rewrite IH. reflexivity.
+Qed.
+
+Lemma exprs_of_eq args :
+  (fix ea (args : list (pad * sexpr)) : option (list expr) :=
+     match args with
+     | [] => Some []
+     | (_, a) :: more =>
+         match expr_of a, ea more with Some e, Some es => Some (e :: es) | _, _ => None end
+     end) args = exprs_of args.
+Proof. induction args as [|[s a] more IH]; cbn [exprs_of]; [reflexivity|]. rewrite IH. reflexivity. Qed.
+
+Lemma expr_of_call name dot args close :
+  expr_of (XCall name dot args close) =
+  match exprs_of args with Some es => call_of name (dot_args dot ++ es) | None => None end.
+Proof. cbn [expr_of]. rewrite exprs_of_eq. reflexivity. Qed.
+
+Lemma xwf_call name dot args close :
+  xwf (XCall name dot args close) <->
+  (at_end fname_stop (show_args args close) /\ pad_ok close /\ xwf_args args close).
+Proof.
+  cbn [xwf].
+  assert (E1 : (fix sa (args : list (pad * sexpr)) : list byte :=
+            match args with
+            | [] => close ++ [41]
+            | (s, a) :: more => s ++ show a ++ sa more
+            end) args = show_args args close).
+  { induction args as [|[s a] more IH]; cbn [show_args]; [reflexivity|]. rewrite IH. reflexivity. }
+  rewrite E1.
+  assert (E2 : (fix wa (args : list (pad * sexpr)) : Prop :=
+         match args with
+         | [] => True
+         | (s, a) :: more =>
+             pad_ok s /\ xwf a /\ xfollow a (show_args more close) /\ wa more
+         end) args <-> xwf_args args close).
+  { clear E1. induction args as [|[s a] more IH]; cbn [xwf_args]; tauto. }
+  tauto.
+Qed.
+
+Lemma pad_split p : pad_ok p ->
+  exists w p', p = w ++ p' /\ ws_ok w /\ (p' = [] \/ exists p'', p' = 44 :: p'' /\ pad_ok p'').
+Proof.
+  induction 1 as [|b p Hb Hp (w & p' & -> & Hw & Hcase)].
+  - exists [], []. repeat split; [constructor|left; reflexivity].
+  - unfold is_pad_byte in Hb. apply orb_true_iff in Hb. destruct Hb as [Hb|Hb].
+    + exists (b :: w), p'. repeat split; [constructor; assumption|exact Hcase].
+    + apply N.eqb_eq in Hb. subst b. exists [], (44 :: w ++ p'). repeat split; [constructor|].
+      right. eexists. split; [reflexivity|exact Hp].
+Qed.
+
+Ltac lens := rewrite ?app_length; cbn [length]; unfold pad, ws, byte in *; lia.
+
+(* ================= the main lemma, by induction on fuel ================= *)
+Definition P_getter (fuel : nat) : Prop :=
+  forall x e r (w tl : list byte), xwf x -> expr_of x = Some e -> ws_ok w -> rd_ok r ->
+    view r = w ++ show x ++ tl -> xfollow x tl -> (2 * length (view r) < fuel)%nat ->
+    exists r', read_getter fuel r = (Some e, r') /\ view r' = tl /\ rd_ok r' /\ cur r' = hd_error tl.
+Definition P_args (fuel : nat) : Prop :=
+  forall args close es acc r (tl : list byte), pad_ok close -> xwf_args args close ->
+    exprs_of args = Some es -> rd_ok r ->
+    view r = show_args args close ++ tl -> (2 * length (view r) + 1 < fuel)%nat ->
+    exists r', parse_args fuel acc r = (Some (acc ++ es), r') /\ view r' = tl /\ rd_ok r' /\
+               cur r' = hd_error tl.
+
+Lemma pad_byte_false b : is_pad_byte b = false -> is_ws b = false /\ (b =? 44) = false.
+Proof. unfold is_pad_byte. apply orb_false_iff. Qed.
+
+Lemma args_step f : P_getter f -> P_args f -> P_args (S f).
+Proof.
+  intros IHg IHa args close es acc r tl Hclose Hwf Hes Hok Hv Hlen. rewrite parse_args_S. cbv zeta.
+  destruct args as [|[s a] more].
+  - cbn [show_args] in Hv. cbn [exprs_of] in Hes. injection Hes as <-.
+    destruct (pad_split close Hclose) as (w & p' & -> & Hw & [->|(p'' & -> & Hp'')]).
+    + rewrite app_nil_r in Hv. rewrite <- app_assoc in Hv. cbn [app] in Hv.
+      destruct (eat_whitespace_spec w r (41 :: tl) Hok Hw (eq_refl : nws (41 :: _)) Hv) as (Hv1 & Hok1).
+      set (r1 := eat_whitespace r) in *. clearbody r1.
+      destruct (peek_cons r1 41 _ Hok1 Hv1) as (r2 & -> & Hv2 & Hc2 & Hok2).
+      cbv beta iota zeta. ground_eqb. cbv iota.
+      destruct (next_drop r2 41 _ Hok2 Hc2 Hv2) as (r3 & -> & ? & ? & ?). cbn [snd].
+      rewrite app_nil_r. eauto.
+    + rewrite <- !app_assoc in Hv. cbn [app] in Hv.
+      destruct (eat_whitespace_spec w r _ Hok Hw (eq_refl : nws (44 :: _)) Hv) as (Hv1 & Hok1).
+      set (r1 := eat_whitespace r) in *.
+      assert (L1 : (length (view r1) <= length (view r))%nat) by (rewrite Hv1, Hv; lens).
+      clearbody r1.
+      destruct (peek_cons r1 44 _ Hok1 Hv1) as (r2 & -> & Hv2 & Hc2 & Hok2).
+      cbv beta iota zeta. ground_eqb. cbv iota.
+      destruct (next_drop r2 44 _ Hok2 Hc2 Hv2) as (r3 & -> & Hv3 & Hok3 & _). cbn [snd].
+      destruct (IHa [] p'' [] acc r3 tl Hp'' I eq_refl Hok3) as (r4 & -> & ? & ? & ?).
+      * cbn [show_args]. rewrite <- app_assoc. exact Hv3.
+      * rewrite Hv1 in L1. cbn [length] in L1. rewrite Hv3. lia.
+      * eauto.
+  - cbn [show_args] in Hv. cbn [xwf_args] in Hwf. destruct Hwf as (Hs & Ha & Hfa & Hmore).
+    cbn [exprs_of] in Hes. destruct (expr_of a) as [e|] eqn:Ee; [|discriminate].
+    destruct (exprs_of more) as [es'|] eqn:Ees; [|discriminate]. injection Hes as <-.
+    destruct (pad_split s Hs) as (w & p' & -> & Hw & [->|(p'' & -> & Hp'')]).
+    + (* the argument *)
+      rewrite app_nil_r in Hv. rewrite <- !app_assoc in Hv.
+      destruct (show_head a Ha) as (b & l & Hsh & _ & Hpad & H41).
+      destruct (pad_byte_false b Hpad) as [Hbws H44].
+      destruct (eat_whitespace_spec w r (show a ++ show_args more close ++ tl) Hok Hw) as (Hv1 & Hok1);
+        [rewrite Hsh; exact Hbws|exact Hv|].
+      set (r1 := eat_whitespace r) in *.
+      assert (L1 : (length (view r1) <= length (view r))%nat) by (rewrite Hv1, Hv; lens).
+      clearbody r1.
+      assert (Hv1' : view r1 = b :: l ++ show_args more close ++ tl) by (rewrite Hv1, Hsh; reflexivity).
+      destruct (peek_cons r1 b _ Hok1 Hv1') as (r2 & -> & Hv2 & Hc2 & Hok2).
+      cbv beta iota zeta. rewrite H44, H41.
+      destruct (IHg a e r2 [] (show_args more close ++ tl) Ha Ee (Forall_nil _) Hok2)
+        as (r3 & -> & Hv3 & Hok3 & Hc3).
+      * cbn [app]. rewrite Hv2, Hsh. reflexivity.
+      * destruct (show_args_head more close Hmore) as (b' & l' & E'). rewrite E'. cbn [app].
+        apply (xfollow_head a b' l'). rewrite <- E'. exact Hfa.
+      * rewrite Hv2, <- Hv1'. lia.
+      * cbv beta iota.
+        destruct (IHa more close es' (acc ++ [e]) r3 tl Hclose Hmore Ees Hok3 Hv3) as (r4 & -> & ? & ? & ?).
+        { rewrite Hv1' in L1. cbn [length] in L1. rewrite app_length in L1. rewrite Hv3. lia. }
+        rewrite <- app_assoc. cbn [app]. eauto.
+    + (* a comma *)
+      rewrite <- !app_assoc in Hv. cbn [app] in Hv.
+      destruct (eat_whitespace_spec w r _ Hok Hw (eq_refl : nws (44 :: _)) Hv) as (Hv1 & Hok1).
+      set (r1 := eat_whitespace r) in *.
+      assert (L1 : (length (view r1) <= length (view r))%nat) by (rewrite Hv1, Hv; lens).
+      clearbody r1.
+      destruct (peek_cons r1 44 _ Hok1 Hv1) as (r2 & -> & Hv2 & Hc2 & Hok2).
+      cbv beta iota zeta. ground_eqb. cbv iota.
+      destruct (next_drop r2 44 _ Hok2 Hc2 Hv2) as (r3 & -> & Hv3 & Hok3 & _). cbn [snd].
+      destruct (IHa ((p'', a) :: more) close (e :: es') acc r3 tl Hclose) as (r4 & -> & ? & ? & ?).
+      * cbn [xwf_args]. auto.
+      * cbn [exprs_of]. rewrite Ee, Ees. reflexivity.
+      * exact Hok3.
+      * cbn [show_args]. rewrite <- !app_assoc. exact Hv3.
+      * rewrite Hv1 in L1. cbn [length] in L1. rewrite Hv3. lia.
+      * eauto.
+Qed.
+
+Lemma at_end_app p l (tl : list byte) : l <> [] -> at_end p l -> at_end p (l ++ tl).
+Proof. destruct l as [|b l]; [congruence|]. intros _ H. exact H. Qed.
+
+Lemma getter_step f : P_args f -> P_getter (S f).
+Proof.
+  intros IHa x e r w tl Hwf He Hw Hok Hv Hfol Hlen. rewrite read_getter_S. cbv zeta.
+  destruct (show_head x Hwf) as (b0 & l0 & Hsh & Hhead & Hpad & H41).
+  destruct (pad_byte_false b0 Hpad) as [Hb0ws _].
+  destruct (eat_whitespace_spec w r (show x ++ tl) Hok Hw) as (Hv1 & Hok1);
+    [rewrite Hsh; exact Hb0ws|exact Hv|].
+  set (r1 := eat_whitespace r) in *.
+  assert (L1 : (length (view r1) <= length (view r))%nat) by (rewrite Hv1, Hv; lens).
+  clearbody r1.
+  assert (Hv1' : view r1 = b0 :: l0 ++ tl) by (rewrite Hv1, Hsh; reflexivity).
+  destruct (peek_cons r1 b0 _ Hok1 Hv1') as (r2 & -> & Hv2 & Hc2 & Hok2).
+  cbv beta iota zeta.
+  assert (Hv2' : view r2 = show x ++ tl) by (rewrite Hv2, Hsh; reflexivity).
+  destruct x as [ups p|t|n|n|pl n pr|k sp|name dot args close]; cbn [head_ok] in Hhead.
+  - (* extractor *)
+    rewrite Hhead. cbn [expr_of] in He. injection He as <-.
+    apply parse_extractor_spec; assumption.
+  - (* JSON literal *)
+    destruct Hhead as (-> & -> & -> & -> & ->).
+    cbn [expr_of] in He. destruct (value_of t) as [v|] eqn:Ev; [|discriminate].
+    cbn [option_map] in He. injection He as <-. cbn [xwf] in Hwf. cbn [xfollow] in Hfol.
+    unfold next_json_value.
+    destruct (parse_value_render (parse_fuel r2) t v [] tl r2 Hwf Ev (Forall_nil _)
+                (json_follow_follow t tl Hfol) Hok2 Hv2') as (r3 & E & Hv3 & Hok3).
+    { pose proof (view_len_cur r2 b0 Hok2 Hc2). unfold parse_fuel. lia. }
+    pose proof (next_json_value_good r2 (good_of r2 (b0 :: l0 ++ tl) Hok2 Hc2 Hv2)) as G.
+    unfold next_json_value in G. rewrite E in G |- *. cbn [snd] in G. destruct G as [_ G].
+    rewrite Hv3 in G. eauto.
+  - (* variable *)
+    subst b0. ground_mem. ground_eqb. cbv iota. cbn [expr_of] in He. injection He as <-.
+    apply (parse_get_variable_spec false n r2 tl Hwf Hfol Hok2 Hv2').
+  - (* macro *)
+    subst b0. ground_mem. ground_eqb. cbv iota. cbn [expr_of] in He. injection He as <-.
+    apply (parse_get_variable_spec true n r2 tl Hwf Hfol Hok2 Hv2').
+  - (* selected name *)
+    subst b0. ground_mem. ground_eqb. cbv iota. cbn [expr_of] in He. injection He as <-.
+    apply (parse_get_selection_spec pl n pr r2 tl Hwf Hok2 Hc2 Hv2').
+  - (* input context *)
+    subst b0. ground_mem. ground_eqb. cbv iota. cbn [expr_of] in He. injection He as <-.
+    apply (parse_input_context_spec k sp r2 tl Hwf Hfol Hok2 Hc2 Hv2').
+  - (* function call *)
+    subst b0. ground_mem. ground_eqb. cbv iota.
+    rewrite (eat_whitespace_cur r2 40 Hc2 eq_refl).
+    rewrite expr_of_call in He. destruct (exprs_of args) as [es|] eqn:Ees; [|discriminate].
+    unfold call_of in He.
+    destruct (find_function name fn_table) as [[[canon mn] mx]|] eqn:Ef; [|discriminate].
+    destruct (arity_ok (length (dot_args dot ++ es)) mn mx) eqn:Ea; [|discriminate].
+    injection He as <-.
+    destruct (resolved_name_clean name canon mn mx Ef) as (Hstop & Hascii & Hnodot).
+    apply xwf_call in Hwf. destruct Hwf as (Hnend & Hclose & Hargs).
+    rewrite show_call in Hv2'. cbn [app] in Hv2'.
+    set (dotb := if dot then [46] else []) in *.
+    assert (Hv2'' : view r2 = 40 :: (dotb ++ name) ++ show_args args close ++ tl).
+    { rewrite Hv2'. rewrite <- !app_assoc. reflexivity. }
+    assert (Hdstop : Forall (fun b => fname_stop b = false) (dotb ++ name)).
+    { apply Forall_app. split; [|exact Hstop]. subst dotb. destruct dot; repeat constructor. }
+    assert (Hdascii : Forall (fun b => b < 128) (dotb ++ name)).
+    { apply Forall_app. split; [|exact Hascii]. subst dotb. destruct dot; repeat constructor. }
+    destruct (show_args_head args close Hargs) as (ba & la & Esa).
+    destruct (read_until_spec fname_stop (dotb ++ name) (fuel_of r2) [] r2 40
+                (show_args args close ++ tl) Hok2 Hc2 Hv2'' Hdstop) as (r3 & E & Hv3 & Hok3 & _).
+    { apply at_end_app; [rewrite Esa; discriminate|exact Hnend]. }
+    { pose proof (fuel_of_view r2 Hok2) as L. rewrite Hv2'' in L. cbn [length] in L.
+      rewrite app_length in L. unfold byte in *. lia. }
+    rewrite E. cbn [app]. rewrite (utf8_decode_ascii _ Hdascii).
+    assert (Edot : match dotb ++ name with
+                   | b0 :: t => if b0 =? 46 then (true, t) else (false, dotb ++ name)
+                   | [] => (false, dotb ++ name)
+                   end = (dot, name)).
+    { subst dotb. destruct dot; cbn [app].
+      - rewrite N.eqb_refl. reflexivity.
+      - destruct name as [|b1 t]; [reflexivity|]. rewrite Hnodot. reflexivity. }
+    nb. rewrite Edot. rewrite Ef.
+    destruct (IHa args close es (dot_args dot) r3 tl Hclose Hargs Ees Hok3 Hv3)
+      as (r4 & E4 & ? & ? & ?).
+    { assert (L3 : (length (view r3) < length (view r2))%nat).
+      { rewrite Hv3, Hv2''. cbn [length]. rewrite !app_length. lia. }
+      rewrite Hv2, <- Hv1' in L3. nb. lia. }
+    unfold dot_args in E4 at 1. rewrite E4. rewrite Ea. eauto.
+Qed.
+
+Lemma getter_args_ok : forall fuel, P_getter fuel /\ P_args fuel.
+Proof.
+  induction fuel as [|f [IHg IHa]].
+  - split; intro; intros; lia.
+  - split; [apply getter_step; assumption|apply args_step; assumption].
+Qed.
+
+(* ================= P1: the reader maps every spelling to the denoted tree ================= *)
+Theorem read_getter_show : forall fuel x e (w tl : list byte) r,
+  xwf x -> expr_of x = Some e -> xfollow x tl -> ws_ok w -> rd_ok r ->
+  view r = w ++ show x ++ tl -> (2 * length (view r) < fuel)%nat ->
+  exists r', read_getter fuel r = (Some e, r') /\ view r' = tl /\ rd_ok r' /\ cur r' = hd_error tl.
+Proof.
+  intros fuel x e w tl r Hwf He Hfol Hw Hok Hv Hlen.
+  exact (proj1 (getter_args_ok fuel) x e r w tl Hwf He Hw Hok Hv Hfol Hlen).
+Qed.
+
+(* the argument loop, for completeness *)
+Theorem parse_args_show : forall fuel args close es acc (tl : list byte) r,
+  pad_ok close -> xwf_args args close -> exprs_of args = Some es -> rd_ok r ->
+  view r = show_args args close ++ tl -> (2 * length (view r) + 1 < fuel)%nat ->
+  exists r', parse_args fuel acc r = (Some (acc ++ es), r') /\ view r' = tl /\ rd_ok r' /\
+             cur r' = hd_error tl.
+Proof. intros fuel args close es acc tl r. exact (proj2 (getter_args_ok fuel) args close es acc r tl). Qed.
+
+(* ================= bytes that end every form ================= *)
+Definition closes (b : byte) : bool :=
+  key_stop b && not_digit b && not_extractor_start b && not_number_part b && var_stop b &&
+  not_ictx_letter b.
+
+Lemma xfollow_closes x (b : byte) l : closes b = true -> xfollow x (b :: l).
+Proof.
+  unfold closes. intros H.
+  apply andb_true_iff in H. destruct H as [H H6]. apply andb_true_iff in H. destruct H as [H H5].
+  apply andb_true_iff in H. destruct H as [H H4]. apply andb_true_iff in H. destruct H as [H H3].
+  apply andb_true_iff in H. destruct H as [H1 H2].
+  destruct (not_extractor_start_imp b H3) as [_ H3'].
+  destruct x as [ups [[|]|sl]|t|n|n|pl n pr|k sp|name dot args close]; cbn [xfollow at_end]; auto.
+  - destruct (last_sel sl) as [[k|ds]|]; cbn [sel_follow at_end]; auto.
+  - destruct t; cbn [json_follow at_end]; auto.
+Qed.
+
+Lemma xfollow_nil x : xfollow x [].
+Proof.
+  destruct x as [ups [[|]|sl]|t|n|n|pl n pr|k sp|name dot args close]; cbn [xfollow at_end]; auto.
+  - destruct (last_sel sl) as [[k|ds]|]; cbn [sel_follow at_end]; auto.
+  - destruct t; cbn [json_follow at_end]; auto.
+Qed.
+
+Lemma ws_closes b : is_ws b = true -> closes b = true.
+Proof. intros H. apply ws_cases in H. destruct H as [-> | [-> | [-> | ->]]]; reflexivity. Qed.
+
+Lemma pad_closes b : is_pad_byte b = true -> closes b = true.
+Proof.
+  unfold is_pad_byte. intros H. apply orb_true_iff in H. destruct H as [H|H].
+  - apply ws_closes; assumption.
+  - apply N.eqb_eq in H. subst b. reflexivity.
+Qed.
+
+(* white space, then anything admissible, is admissible *)
+Lemma xfollow_ws x (w tl : list byte) : ws_ok w -> xfollow x tl -> xfollow x (w ++ tl).
+Proof.
+  intros Hw Ht. destruct w as [|b w]; [exact Ht|]. inversion Hw; subst. cbn [app].
+  apply xfollow_closes. apply ws_closes. assumption.
+Qed.
+
+Lemma show_nws x (tl : list byte) : xwf x -> nws (show x ++ tl).
+Proof.
+  intros H. destruct (show_head x H) as (b & l & -> & _ & Hp & _). cbn [app nws].
+  apply pad_byte_false in Hp. tauto.
+Qed.
+
+(* ================= P2: the option parsers ================= *)
+(* reading a text that starts with (blanks and) a spelling, from the beginning of the option value *)
+Lemma read_option_value x e (w tl : list byte) :
+  xwf x -> expr_of x = Some e -> ws_ok w -> xfollow x tl ->
+  exists r', read_getter (expr_fuel (w ++ show x ++ tl))
+                         (eat_whitespace (reader_of_bytes (w ++ show x ++ tl))) = (Some e, r') /\
+             view r' = tl /\ rd_ok r' /\ cur r' = hd_error tl.
+Proof.
+  intros Hwf He Hw Hfol. set (src := w ++ show x ++ tl).
+  destruct (eat_whitespace_spec w (reader_of_bytes src) (show x ++ tl) (rd_ok_of_bytes src) Hw
+              (show_nws x tl Hwf) (view_of_bytes src)) as (Hv1 & Hok1).
+  apply (read_getter_show (expr_fuel src) x e [] tl); auto.
+  - constructor.
+  - rewrite Hv1. unfold expr_fuel. subst src. rewrite !app_length. unfold byte in *. lia.
+Qed.
+
+(* --filter, --split-by, --group-by: the whole value is one expression *)
+Theorem parse_whole_show x e (w w' : list byte) :
+  xwf x -> expr_of x = Some e -> ws_ok w -> ws_ok w' ->
+  parse_whole (w ++ show x ++ w') = Some e.
+Proof.
+  intros Hwf He Hw Hw'. unfold parse_whole.
+  destruct (read_option_value x e w w' Hwf He Hw) as (r1 & -> & Hv1 & Hok1 & _).
+  { rewrite <- (app_nil_r w'). apply xfollow_ws; [assumption|apply xfollow_nil]. }
+  destruct (eat_whitespace_spec w' r1 [] Hok1 Hw' I) as (Hv2 & Hok2); [rewrite app_nil_r; exact Hv1|].
+  destruct (peek_nil _ Hok2 Hv2) as (r3 & -> & _). reflexivity.
+Qed.
+
+Lemma drain_peek_spec (l : list byte) : forall fuel acc r, rd_ok r -> view r = l ->
+  (length l < fuel)%nat -> drain_peek fuel acc r = acc ++ l.
+Proof.
+  induction l as [|b l IH]; intros fuel acc r Hok Hv Hf; (destruct fuel as [|f]; [cbn in Hf; lia|]);
+    cbn [drain_peek].
+  - destruct (peek_nil r Hok Hv) as (r1 & -> & _). rewrite app_nil_r. reflexivity.
+  - destruct (peek_cons r b l Hok Hv) as (r1 & -> & Hv1 & Hc1 & Hok1).
+    destruct (next_drop r1 b l Hok1 Hc1 Hv1) as (r2 & -> & Hv2 & Hok2 & _). cbn [snd].
+    rewrite (IH f (acc ++ [b]) r2 Hok2 Hv2) by (cbn in Hf; lia). rewrite <- app_assoc. reflexivity.
+Qed.
+
+(* --select without a title: the title is the text *)
+Theorem parse_selection_show x e (w w' : list byte) (s : str) :
+  xwf x -> expr_of x = Some e -> ws_ok w -> ws_ok w' ->
+  utf8_decode (w ++ show x ++ w') = Some s ->
+  parse_selection (w ++ show x ++ w') = Some (e, s).
+Proof.
+  intros Hwf He Hw Hw' Hs. unfold parse_selection.
+  destruct (read_option_value x e w w' Hwf He Hw) as (r1 & -> & Hv1 & Hok1 & _).
+  { rewrite <- (app_nil_r w'). apply xfollow_ws; [assumption|apply xfollow_nil]. }
+  destruct (eat_whitespace_spec w' r1 [] Hok1 Hw' I) as (Hv2 & Hok2); [rewrite app_nil_r; exact Hv1|].
+  destruct (peek_nil _ Hok2 Hv2) as (r3 & -> & _). rewrite Hs. reflexivity.
+Qed.
+
+(* --select expression=title *)
+Theorem parse_selection_show_named x e (w w1 w2 title : list byte) (s : str) :
+  xwf x -> expr_of x = Some e -> ws_ok w -> ws_ok w1 -> ws_ok w2 -> nws title ->
+  utf8_decode title = Some s ->
+  parse_selection (w ++ show x ++ w1 ++ 61 :: w2 ++ title) = Some (e, s).
+Proof.
+  intros Hwf He Hw Hw1 Hw2 Hnws Hs. unfold parse_selection.
+  destruct (read_option_value x e w (w1 ++ 61 :: w2 ++ title) Hwf He Hw) as (r1 & -> & Hv1 & Hok1 & _).
+  { apply xfollow_ws; [assumption|]. apply xfollow_closes. reflexivity. }
+  destruct (eat_whitespace_spec w1 r1 _ Hok1 Hw1 (eq_refl : nws (61 :: _)) Hv1) as (Hv2 & Hok2).
+  destruct (peek_cons _ 61 _ Hok2 Hv2) as (r3 & -> & Hv3 & Hc3 & Hok3).
+  rewrite N.eqb_refl.
+  destruct (next_drop r3 61 _ Hok3 Hc3 Hv3) as (r4 & -> & Hv4 & Hok4 & _). cbn [snd].
+  destruct (eat_whitespace_spec w2 r4 title Hok4 Hw2 Hnws Hv4) as (Hv5 & Hok5).
+  rewrite (drain_peek_spec title _ [] _ Hok5 Hv5).
+  - cbn [app]. rewrite Hs. reflexivity.
+  - pose proof (fuel_of_view _ Hok5) as L. rewrite Hv5 in L. exact L.
+Qed.
